@@ -10,6 +10,8 @@
 #[verifier::external_body] pub fn vx_counter_next(c: u32) -> (r: u32) { c.wrapping_add(1) }
 // arm masking (DESIGN §3.1): an arm that is not part of the slice being verified ends in this diverging stub
 #[verifier::external_body] pub fn vx_arm_not_in_slice() -> ! { unimplemented!() }
+// R44: `panic!(..)`: a call that does not return (partial correctness; the message is dropped)
+#[verifier::external_body] pub fn vx_panic() -> ! { unimplemented!() }
 // R7: `vec![e; n]` — n copies of e
 #[verifier::external_body] pub fn vx_vec_repeat<T: Clone>(e: T, n: usize) -> (r: Vec<T>) ensures r@.len() == n, forall|i: int| 0 <= i < n ==> #[trigger] r@[i] == e { vec![e; n] }
 // R32: next value of a local counter whose machine overflow is not checked
